@@ -30,10 +30,12 @@ LENS_THOROUGH = {
     (1, 1): [(1, 1), (2, 3), (3, 1), (4, 4), (1, 5)],
     (2, 1): [(1, 2, 1), (3, 1, 2), (2, 2, 4)],
     (1, 2): [(2, 1, 3), (1, 1, 1), (4, 2, 2)],
-    (2, 2): [(2, 1, 1, 3), (1, 1, 1, 1), (3, 3, 2, 2), (1, 4, 2, 1)],
-    (3, 2): [(1, 2, 3, 2, 1), (1, 1, 1, 1, 1)],
-    (2, 3): [(2, 1, 1, 2, 3), (1, 1, 1, 1, 1)],
-    (3, 3): [(1, 2, 3, 3, 1, 2)],
+    (2, 2): [(2, 1, 1, 3), (1, 1, 1, 1), (3, 3, 2, 2), (1, 4, 2, 1), (5, 1, 1, 6)],
+    (3, 1): [(1, 2, 3, 1), (2, 2, 2, 4)],
+    (1, 3): [(2, 1, 1, 3), (1, 3, 2, 1)],
+    (3, 2): [(1, 2, 3, 2, 1), (1, 1, 1, 1, 1), (4, 1, 2, 3, 1)],
+    (2, 3): [(2, 1, 1, 2, 3), (1, 1, 1, 1, 1), (1, 3, 2, 1, 4)],
+    (3, 3): [(1, 2, 3, 3, 1, 2), (2, 1, 1, 1, 2, 4)],
 }
 
 
@@ -43,7 +45,7 @@ def units(tier, seed):
     for (n, m), lens_list in table.items():
         for lens in lens_list:
             for fmt in ('table', 'cxt', 'wiki'):
-                indents = (0, 3) if fmt == 'table' else (0,)
+                indents = ((0, 3) if tier == 'quick' else (0, 1, 7)) if fmt == 'table' else (0,)
                 for indent in indents:
                     us.append({'name': f'{fmt} {n}x{m} symbolic labels of lengths {lens} indent {indent}',
                                'fn': 'unit_sym',
